@@ -43,7 +43,7 @@ func (c *c08) Setup(w *core.Worker) error {
 	if err != nil {
 		return err
 	}
-	c.h = &hist{env: env, owners: []string{"oa", "ob", "oc", "od"}, noOrphan: true}
+	c.h = &hist{env: env, owners: []string{"oa", "ob", "oc", "od"}}
 	return nil
 }
 
@@ -81,6 +81,8 @@ func (c *c08) RunCase(w *core.Worker, idx int, seed uint64, res *core.CaseResult
 	}
 	changed := false
 	prevActive := map[string]string{}
+	taint := map[string]bool{}  // choice instances that hold legitimately orphaned nodes
+	mustGo := map[string]bool{} // orphaned nodes of a case that lost against a live intent at the time of the orphan delete
 	lostByPresence := map[string]bool{} // paths the device lost through the delete of their presence container (C01 finding)
 	for s := 0; s < steps && !c08Stop(res); s++ {
 		step := run.genStep(3)
@@ -93,6 +95,10 @@ func (c *c08) RunCase(w *core.Worker, idx int, seed uint64, res *core.CaseResult
 			}
 		}
 		res.Tracef("step %d: %s", s, stepString(step))
+		orphanedBefore := map[string]bool{}
+		for k := range run.m.Orphaned {
+			orphanedBefore[k] = true
+		}
 		out, ok := run.commit(step)
 		if !ok {
 			break
@@ -110,6 +116,31 @@ func (c *c08) RunCase(w *core.Worker, idx int, seed uint64, res *core.CaseResult
 		}
 		prevActive = active
 		D := run.ds.Dev.Snapshot()
+		// only-intended deletes: the nodes stay on the device as unmanaged configuration. If, when an intent is orphaned,
+		// a live intent holds ANOTHER case of the same choice instance, that case is the one "holding the highest-precedence
+		// contribution among live intents" and the orphaned nodes have to go in that transaction. Otherwise the orphaned nodes
+		// stay legitimately; no live intent speaks for them any more and what a later case change owes them is not stated:
+		// the instance is not judged for exclusivity from then on.
+		for k := range run.m.Orphaned {
+			if orphanedBefore[k] {
+				continue
+			}
+			for _, cd := range choiceDefs {
+				if inst, cn := cd.member(k); inst != "" {
+					key := inst + "#" + cd.name
+					if active[key] != "" && active[key] != cn {
+						mustGo[k] = true
+					} else {
+						taint[key] = true
+					}
+				}
+			}
+		}
+		for k := range mustGo {
+			if !run.m.Orphaned[k] {
+				delete(mustGo, k)
+			}
+		}
 		// cases present per choice instance
 		present := map[string]map[string]bool{}
 		for k := range D {
@@ -127,6 +158,10 @@ func (c *c08) RunCase(w *core.Worker, idx int, seed uint64, res *core.CaseResult
 			}
 		}
 		for key, cs := range present {
+			if taint[key] {
+				res.Count("instances_not_judged_after_orphan", 1)
+				continue
+			}
 			if len(cs) > 1 {
 				names := []string{}
 				for n := range cs {
@@ -160,13 +195,24 @@ func (c *c08) RunCase(w *core.Worker, idx int, seed uint64, res *core.CaseResult
 				continue
 			}
 			if run.m.Orphaned[k] {
+				if mustGo[k] {
+					okey := "C08/node-of-losing-case-on-device/orphaned-intent" + c08Feature(k, nested)
+					if c08Feature(k, nested) == "/nested-choice" {
+						okey = "C08/node-of-losing-case-on-device/nested-choice"
+					}
+					res.Violate(okey, "%s: device still has %s=%s of an intent that was removed (only-intended) while a live intent holds another case\n  model: %s", where, k, dv, run.m)
+				}
 				continue
 			}
-			losing := false
+			losing, tainted := false, false
 			for _, cd := range choiceDefs {
 				if inst, cn := cd.member(k); inst != "" && active[inst+"#"+cd.name] != "" && active[inst+"#"+cd.name] != cn {
 					losing = true
+					tainted = tainted || taint[inst+"#"+cd.name]
 				}
+			}
+			if losing && tainted {
+				continue
 			}
 			if losing {
 				res.Violate("C08/node-of-losing-case-on-device"+c08Feature(k, nested), "%s: device still has %s=%s, which belongs to a case that does not win\n  model: %s", where, k, dv, run.m)
